@@ -1,11 +1,13 @@
 #!/bin/bash
-# runs every kept seeded change against the check of its property, in a scratch worktree
-wt=/tmp/mutwt
-git -C /repo worktree remove --force $wt 2>/dev/null
+# runs every kept seeded change (or those named on the command line) against the check of its
+# property, in a scratch worktree of /repo; usable from any copy of /verif (e.g. under `vp run`)
+here="$(cd "$(dirname "$0")/.." && pwd)"
+wt=/tmp/mutwt-$$
 git -C /repo worktree add --detach $wt HEAD >/dev/null 2>&1 || exit 2
-for d in /verif/seeded/*/; do
+if [ $# -gt 0 ]; then dirs=$(for i in "$@"; do echo $here/seeded/$i/; done); else dirs=$(ls -d $here/seeded/*/); fi
+for d in $dirs; do
   id=$(basename $d); prop=${id:0:3}
   if grep -q '"neutralised_by"' $d/meta.json 2>/dev/null; then echo "== $id skipped: neutralised by a later fix (see meta.json)"; continue; fi
-  /verif/harness/mutant_wt.sh $wt $d/patch.diff $prop
+  $here/harness/mutant_wt.sh $wt $d/patch.diff $prop
 done
 git -C /repo worktree remove --force $wt
